@@ -1,0 +1,26 @@
+//go:build verif
+
+package rueidis
+
+import "sync/atomic"
+
+type verifHookFn func(point string, args ...any)
+
+var verifHook atomic.Pointer[verifHookFn]
+
+// VerifSetHook installs (or removes, with nil) the monitor callback that is
+// invoked at every verifPoint. Only available with the "verif" build tag.
+func VerifSetHook(fn func(point string, args ...any)) {
+	if fn == nil {
+		verifHook.Store(nil)
+		return
+	}
+	f := verifHookFn(fn)
+	verifHook.Store(&f)
+}
+
+func verifPoint(point string, args ...any) {
+	if f := verifHook.Load(); f != nil {
+		(*f)(point, args...)
+	}
+}
